@@ -102,6 +102,8 @@ class HandlerEval:
             return None
         ci, fn = r
         interp = self.env.interp()
+        # a check that itself requires every handler of this visitor to return text may use that inductively for the children
+        interp.visit_returns_text = vcls in self.__dict__.setdefault("text_visitors", set())
 
         def setup(it):
             return ci.module, fn, [ObjV(vcls, {}, "self"), self.make_node(kind, discr)], {}, ci.qual
